@@ -34,6 +34,9 @@ type Semaphore struct {
 	sem          *semaphore.Weighted
 	lock         sync.Mutex
 	realCapacity int64
+	// applied is closed when the latest change of the capacity has been
+	// applied, nil if there was none.
+	applied chan struct{}
 }
 
 // NewSem new a Semaphore
@@ -80,9 +83,16 @@ func (s *Semaphore) SetMaxCount(n int64) (done chan struct{}) {
 	s.lock.Lock()
 	old := s.realCapacity
 	s.realCapacity = n
+	prev := s.applied
+	s.applied = done
 	s.lock.Unlock()
 
 	go func() {
+		// apply the changes in the order they were made, a later change
+		// must not overtake an earlier one which is still waiting.
+		if prev != nil {
+			<-prev
+		}
 		if n > old {
 			s.sem.Release(n - old)
 		} else if n < old {
